@@ -92,6 +92,63 @@ class FeatData:
             self.flags.writeable = bool(write)
 
 
+class SizeArr:
+    """model ndarray for the size correction of computed features: a list
+    of floats, resizable in place, with a write flag"""
+    _strict_attrs = True
+
+    def __init__(self, values, writeable=True):
+        self.values = [float(v) for v in values]
+        self.flags = FeatData._Flags()
+        self.flags.writeable = writeable
+        self.dtype = DType("<f8")
+        self.ndim = 1
+
+    @property
+    def shape(self):
+        return (len(self.values),)
+
+    @property
+    def size(self):
+        return len(self.values)
+
+    def __len__(self):
+        return len(self.values)
+
+    def resize(self, n, refcheck=True):
+        if isinstance(n, tuple):
+            n = n[0]
+        self.values = (self.values + [0.0] * n)[:n]
+
+    def __getitem__(self, k):
+        r = self.values[k]
+        return SizeArr(r) if isinstance(r, list) else r
+
+    def __setitem__(self, k, v):
+        if not self.flags.writeable:
+            raise L.ModelFault("ValueError", "assignment destination is "
+                               "read-only", None)
+        if isinstance(k, slice):
+            idx = range(*k.indices(len(self.values)))
+            for i in idx:
+                self.values[i] = float(v)
+        else:
+            self.values[k] = float(v)
+
+    def setflags(self, write=None, **k):
+        if write is not None:
+            self.flags.writeable = bool(write)
+
+    def copy(self):
+        return SizeArr(self.values)
+
+    def tobytes(self, *a, **k):
+        return repr(self.values).encode()
+
+    def __repr__(self):
+        return f"SizeArr({self.values})"
+
+
 class DS:
     """model dataset"""
     _strict_attrs = True     # a missing attribute is an AttributeError
@@ -133,6 +190,15 @@ class DS:
     @property
     def features_loaded(self):
         return sorted(self.feats)
+
+
+def _np_array(a, *r, dtype=None, copy=True, **k):
+    if isinstance(a, SizeArr):
+        return a.copy()
+    if isinstance(a, (list, tuple)) and all(
+            isinstance(x, (int, float)) for x in a):
+        return SizeArr(a)
+    return a
 
 
 def _number(o):
@@ -181,8 +247,9 @@ class Model:
             "warnings": L.namespace("warnings", warn=lambda *a, **k: None),
             "np": L.namespace(
                 "np", ndarray=L.ModelType(
-                    "ndarray", lambda o: isinstance(o, FeatData)),
-                array=lambda a, *r, **k: a, nan=float("nan")),
+                    "ndarray", lambda o: isinstance(o, (FeatData, SizeArr))),
+                array=_np_array, asarray=lambda a, *r, **k: a,
+                nan=float("nan"), float64=float),
             "obj2bytes": o2b,
             "dfn": L.namespace("dfn", check_feature_shape=lambda *a: None),
         }
@@ -217,7 +284,10 @@ class MBasin:
     """model basin"""
     _strict_attrs = True
 
-    def __init__(self, basin_type, feats, available=True, label="b"):
+    def __init__(self, basin_type, feats, available=True, label="b",
+                 transient=0, transient_kind="OSError"):
+        self.transient = transient          # failing accesses still to come
+        self.transient_kind = transient_kind
         self.basin_type = basin_type
         self.basin_format = "hdf5"
         self._feats = dict(feats)
@@ -240,6 +310,11 @@ class MBasin:
         if not self.available:
             raise L.ModelRaise(L.ExcValue("BasinNotAvailableError",
                                           (self.label,)))
+        if self.transient > 0:
+            # e.g. a failing range request of a remote basin
+            self.transient -= 1
+            raise L.ModelRaise(L.ExcValue(self.transient_kind,
+                                          ("connection reset",)))
         self.served.append(feat)
         return self._feats[feat]
 
